@@ -18,16 +18,38 @@ CLAIMED = {
  "C14": ("model_checking", "s6 C14", "The five transformation laws (coefficients, energy, energy gradients) are TLC theorems on the grid; recordings of a problem and its five transforms are compared with each other (bit-identical for shifts) and each with its own exact minimiser/energy/gradient."),
  "C18": ("exploration", "s6 C18", "Rounding cannot be modelled in TLA+; it is judged exactly: every defining-equation residual of a canonical corpus and of seeded random duration vectors with ratio <= 100 is evaluated in exact arithmetic by TLC on the recorded coefficient bits (tolerance 1e-3). Known finding F1 (septic, ratio >= ~70) is listed in known_findings.json."),
  "C03": ("model_checking", "s6 C03", "The lookup algorithm is transcribed into TLA+ and checked by TLC against the half-open-interval definition for all breakpoint vectors, times, hints and hint histories on a lattice (3 broken twins rejected); the real class is driven through every route for thousands of (object, t, k, hint) cases and TLC validates identical bits, the exact value of the defined piece and the hint post-state."),
- "C11": ("model_checking", "s6 C11", "TLC explores the PPolyND life cycle with both lazy caches modelled (no stale read reachable, 2 broken twins rejected) and generates one script per abstract transition; replayed on the real class, every evaluation must equal the exact value of the latest data of that object; spline objects are rebuilt after evaluation and evaluated again."),
+ "C11": ("model_checking", "s6 C11", "TLC explores the PPolyND life cycle with both lazy caches modelled (caches tagged by the data they were built from; no stale read and no shared cache reachable, 4 broken twins rejected) and generates one script per abstract transition; replayed on the real class, every evaluation must equal the exact value of the latest data of that object; spline objects are rebuilt after evaluation and evaluated again."),
  "C20": ("model_checking", "s6 C20", "The sequence contract is model-checked over an integer lattice (broken twin rejected); recorded time sequences (incl. steps that nearly divide the interval), trajectory lengths, batch evaluations and factory objects are validated exactly on the logged bits."),
  "C17": ("model_checking", "s6 C17", "Positivity, strict monotonicity, C^2 smoothness at the switch point, the backward rule and the inverse law are TLC theorems on a rational lattice (broken twin rejected); recorded toTime/toTau/backward values on lattices that include adjacent doubles and subnormals are judged against the exact rational map."),
  "C07": ("model_checking", "s6 C07", "OptMath!Grad (chain rule through time map, spatial map, spline adjoint and the K-step quadrature, written from the definitions) is checked by TLC against exact central differences of OptMath!Cost on a grid; on the real class all 256 flag settings x 3 orders with cycled N, dimension, map families, energy weight, steps and overloads are evaluated and every gradient component is validated against the exact gradient."),
  "C08": ("model_checking", "s6 C08", "Recorded costs are validated against the exact time + waypoint + trapezoid + weighted-energy decomposition, and every sample handed to a recording running-cost functor (segment index, local/global time, p v a j s) against the exact minimiser; count and uniqueness of samples; the two-cost overload law is a TLC theorem."),
  "C09": ("model_checking", "s6 C09", "Layout, round-trip and pinning laws are TLC theorems on a grid; the lazy layout cache is explored exhaustively against every setter/reader/copy history (4 broken twins rejected); all flag settings x orders x N 1..6 x dimensions x spatial maps are replayed (dimension, initial guess, decode of a marker vector, pinned bits, exposed spline) plus one script per transition of the reconfiguration model."),
  "C15": ("model_checking", "s6 C15", "Ownership model (own/user map pointers, built-in workspace) explored exhaustively by TLC (NoDangling, NoSharedWorkspace; broken twins rejected); one script per transition replayed with stateful maps on optimizers in a poisoned arena; every evaluation of every live object is validated against the exact result for its own configuration; spline-object copies by bit identity."),
- "C16": ("model_checking", "s6 C16", "Verdict coherence and rejection paths are model-checked (OptObj, PPolyObj); every single placement of a non-finite value, durations around the 1 ms threshold, size mismatches and valid/invalid sequences are replayed through both overloads and judged against Valid(inputs, order) evaluated exactly on the logged bits; PPolyND rejection kinds and at() bounds likewise."),
+ "C16": ("model_checking", "s6 C16", "Verdict coherence and rejection paths are model-checked (OptObj, PPolyObj); every single placement of a non-finite value, durations around the 1 ms threshold, size mismatches and valid/invalid sequences are replayed through both overloads and judged against Valid(inputs, order) evaluated exactly on the logged bits, verdicts of copies included (defect F3 found and repaired by a fix: commit); PPolyND rejection kinds (also directly after a valid state) and at() bounds likewise."),
  "C19": ("model_checking", "s6 C19", "The self-check procedure is a TLA+ state machine checked by TLC (restore after every component, final evaluation at x; broken twin rejected); recorded checkGradients results for correct and lying functors are validated: analytical vs the exact pipeline result for the claimed partials, numerical vs the exact true gradient, norms, verdict and workspace state."),
  "C12": ("model_checking", "s6 C12", "TLC explores every interleaving of concurrent evaluators (lazy layout fill split into steps) and of executor tasks under a happens-before race definition (2 broken twins rejected); on the real class every segment-order permutation, thread partitions and 2..4 concurrently evaluating threads on a freshly configured optimizer must return the bits of the serial calls, and the same scripts run race-free under ThreadSanitizer. Defect F2 (unsynchronised lazy layout fill) was found this way and repaired by a fix: commit."),
+}
+TECHS = {
+ "C01": "TLC model checking of spec/MCSplineMath (existence/uniqueness, bookkeeping laws on a rational grid) + TLC trace validation (spec/TraceSpline) of executions replayed on the real classes, judged by exact rational residuals",
+ "C02": "TLC model checking of spec/MCSplineMath (optimality, variational laws, the library's own block equations in spec/SplineAlgo) + TLC trace validation (TraceSpline) against the exact dense minimiser; traces of the repository's own tests recorded through the guarded hook",
+ "C03": "TLC model checking of spec/PPolyLookup (transcribed lookup algorithm, broken twins) + TLC trace validation (spec/TracePPoly) of every evaluation route on the real class",
+ "C04": "TLC model checking of spec/MCSplineMath (energy laws) + TLC trace validation (TraceSpline): exact integral of the published coefficients",
+ "C05": "TLC model checking of spec/MCSplineMath (adjoint = exact differences) + TLC trace validation (TraceSpline): exact transpose-Jacobian product",
+ "C06": "TLC model checking of spec/MCSplineMath (energy gradient laws, variational closed forms) + TLC trace validation (TraceSpline): exact partial and total energy gradients",
+ "C07": "TLC model checking of spec/MCOptMath (Grad = exact differences of Cost on a grid) + TLC trace validation (spec/TraceOpt) of optimizer evaluations against the exact gradient",
+ "C08": "TLC model checking of spec/MCOptMath (cost decomposition, two-cost law) + TLC trace validation (TraceOpt) of costs and of every sample handed to the running cost",
+ "C09": "TLC model checking of spec/MCOptMath (layout laws) and exhaustive exploration of spec/MCOptObj (lazy layout cache, broken twins) generating scripts; replay on the real class; TLC trace validation (TraceOpt)",
+ "C10": "TLC exhaustive exploration of spec/MCSplineObj (cache discipline, broken twins) generating one script per abstract transition; replay; TLC trace validation (TraceSpline, TraceOpt) with a bit-identity memo and fresh twin objects",
+ "C11": "TLC exhaustive exploration of spec/MCPPolyObj (lazy caches tagged by data, NoSharedCache, 4 broken twins) and spec/MCSplineObj generating scripts; replay; TLC trace validation (TracePPoly, TraceSpline)",
+ "C12": "TLC exhaustive exploration of spec/OptConcurrent (interleavings of evaluators and executor tasks, happens-before data-race definition, broken twins) + replay of schedules on the real class validated by TLC (TraceOpt, bit identity with serial calls) + the same replays under ThreadSanitizer",
+ "C13": "TLC model checking of spec/MCSplineMath (coordinate-wise independence) + TLC trace validation (TraceSpline) of D-dimensional against one-dimensional recordings",
+ "C14": "TLC model checking of spec/MCSplineMath (transformation laws) + TLC trace validation (TraceSpline) of a problem against its transforms",
+ "C15": "TLC exhaustive exploration of spec/MCOptObj (ownership: NoDangling, NoSharedWorkspace, broken twins) generating scripts + a deterministic ownership family; replay in a poisoned arena (thorough: AddressSanitizer); TLC trace validation (TraceOpt)",
+ "C16": "TLC model checking of spec/MCOptObj and spec/MCPPolyObj (verdict coherence, rejection paths) + TLC trace validation (TraceOpt, TracePPoly) of every fault placement",
+ "C17": "TLC model checking of spec/MCTimeMap (positivity, monotonicity, inverse, backward rule on a rational lattice) + TLC trace validation (spec/TraceTimeMap) of recorded map values",
+ "C18": "no design model applies to rounding (DESIGN s10): TLC trace validation (TraceSpline) only - exact residuals of the defining equations on the recorded coefficient bits",
+ "C19": "TLC model checking of spec/SelfCheck (self-check state machine, broken twin) + TLC trace validation (TraceOpt) of checkGradients results for correct and lying functors",
+ "C20": "TLC model checking of spec/TimeSeq (sequence contract on an integer lattice, broken twin) + TLC trace validation (TracePPoly) of sequences, lengths, batch evaluation, factories",
 }
 PENDING = {}
 checks = []
@@ -37,7 +59,7 @@ for i in ids:
         checks.append({"property_id": i, "quick_cmd": "bin/check %s --tier quick" % i, "thorough_cmd": "bin/check %s --tier thorough" % i,
                        "evidence_file": "evidence/%s.json" % i, "replay_cmd_template": "bin/check %s --replay {path}" % i,
                        "engine": "tlc-conformance", "level_claimed": {"category": cat, "text": text, "design_ref": "DESIGN.md " + ref},
-                       "level_note": NOTE, "technique": TECH})
+                       "level_note": NOTE, "technique": TECHS.get(i, TECH)})
 na = [{"property_id": i, "reason": PENDING.get(i, "check not built yet (work in progress; DESIGN.md s11 order of work)")} for i in ids if i not in CLAIMED]
 m = {"version": 1, "setup_cmd": "bin/setup",
      "hooks": {"guard": "SPLINETRAJECTORY_VERIF", "enable": "-DSPLINETRAJECTORY_VERIF plus -include harness/trace_sink.hpp when building the repository's own test programs (lib/vbuild.py: repo_test_with_hooks); the replayers use the public API only",
